@@ -182,9 +182,17 @@ func verify(args []string) int {
 		timeout = 60
 	}
 	outs := vc.SolveAll(obls, workDir, timeout, 12)
-	// retry policy: an undecided obligation is retried once with 4x the budget before it is reported
+	// retry policy: an undecided obligation that the baseline claims is retried once with 4x the budget before it is reported
+	var base0 Baseline
+	if bb, err := os.ReadFile(filepath.Join(verifDir, "baseline", *prop+".json")); err == nil {
+		json.Unmarshal(bb, &base0)
+	}
+	claimed := map[string]bool{}
+	for _, n := range base0.Discharged {
+		claimed[n] = true
+	}
 	for i, o := range outs {
-		if o.Status == "unknown" {
+		if o.Status == "unknown" && claimed[o.Obl.Name] {
 			outs[i] = vc.Solve(o.Obl, workDir, i, timeout*4)
 		}
 	}
